@@ -11,6 +11,11 @@
      env    [Settings -> BOOLEAN]            NDN_CLIENT_TRANSPORT / _PIB / _TPM set?
      loc    [Stores -> LocClass]             the location carried by every non-default value of that store
      defx   [Stores -> Seq(BOOLEAN)]         which of the platform's default locations exist (ordered)
+     val    the alphabet of the values of the non-default sources:
+            "plain"; "pct" = a '%' inside every value (IPv6 zone id "%25eth0" in the transport host, '%' in store
+            directory names); "punct" = store directory names holding ' ', '=', '#', ';'; "foreigntpm" = the tpm
+            value names a private-key store of ANOTHER platform ('tpm-osxkeychain:' / 'tpm-cng:' on Linux).
+            Which source wins and how a location resolves never depends on the characters of a value.
 
    Every source has its own value, so the result tells which source was used:
      Src("env",0), Src("file",i), Src("def",0).
@@ -22,6 +27,13 @@
 
    Resolve is written the way the code is layered (defaults, then file, then environment; then
    location resolution); the P_* invariants are the clauses of the property statement.
+
+   A foreign tpm scheme must be REFUSED by default_keychain (never silently replaced); the statement fixes the
+   exception class only for transport schemes, so any exception counts as refusal there (the executor notes that
+   the unchanged library raises NameError rather than ValueError).
+
+   Platform: PlatformClass(sys.platform) and the Linux default transport (new socket path unless only the old
+   NFD socket exists) are enumerated as states of kind "plat".
 
    Interpretation decision (DESIGN 9/C20): when a store location exists neither as given nor next to the
    configuration file and NO platform default location exists either, any candidate is accepted. *)
@@ -48,7 +60,9 @@ Layer2(c, s) == IF c.env[s] THEN Src("env", 0) ELSE Layer1(c, s)
 Winner(c, s) == Layer2(c, s)
 
 \* ------------------------------------------------------------------ store location
-LocOf(c, s) == IF Winner(c, s).k = "def" THEN "none" ELSE c.loc[s]       \* platform defaults name a scheme only
+ValClasses == {"plain", "pct", "punct", "foreigntpm"}
+ForeignTpm(c, s) == s = "tpm" /\ c.val = "foreigntpm" /\ Winner(c, s).k # "def"      \* 'tpm-osxkeychain:' - no location
+LocOf(c, s) == IF Winner(c, s).k = "def" \/ ForeignTpm(c, s) THEN "none" ELSE c.loc[s]   \* platform defaults name a scheme only
 DefIdx(c, s) == LET I == {i \in 1..Len(c.defx[s]) : c.defx[s][i]} IN IF I = {} THEN 0 ELSE MinOf(I)
 W(w, i) == [where |-> w, idx |-> i]
 Where(c, s) ==
@@ -63,15 +77,16 @@ Where(c, s) ==
 
 \* a value without location uses a scheme of its own (recognisable, and not a real store scheme);
 \* values with a location and the platform default use the real scheme
-SchemeValid(c, s) == Winner(c, s).k = "def" \/ c.loc[s] # "none"
+SchemeValid(c, s) == Winner(c, s).k = "def" \/ (c.loc[s] # "none" /\ ~ForeignTpm(c, s))
 Keychain(c) == IF SchemeValid(c, "pib") /\ SchemeValid(c, "tpm") THEN "ok" ELSE "err"
 
 \* ------------------------------------------------------------------ transport URI -> face
 FileHost == <<"file1host", "file2host", "file3host", "file4host", "file5host", "file6host">>
+FileHostPct == <<"fe80::%25f1", "fe80::%25f2", "fe80::%25f3", "fe80::%25f4", "fe80::%25f5", "fe80::%25f6">>
 Uri(scheme, addr, port, path) == [scheme |-> scheme, addr |-> addr, port |-> port, path |-> path]
-UriOf(w) == CASE w.k = "env"  -> Uri("tcp", "envhost", 7001, "")
-              [] w.k = "file" -> Uri("udp", FileHost[w.i], 0, "")
-              [] w.k = "def"  -> Uri("unix", "", 0, "DEFAULT")
+UriOf(w, val) == CASE w.k = "env"  -> Uri("tcp", IF val = "pct" THEN "fe80::1%25eth0" ELSE "envhost", 7001, "")
+                   [] w.k = "file" -> Uri("udp", IF val = "pct" THEN FileHostPct[w.i] ELSE FileHost[w.i], 0, "")
+                   [] w.k = "def"  -> Uri("unix", "", 0, "DEFAULT")
 Face(k, addr, port) == [k |-> k, addr |-> addr, port |-> port]
 DefaultPort == 6363
 FaceOf(u) ==
@@ -85,7 +100,7 @@ Resolve(c) == [transport |-> Winner(c, "transport"),
                pib |-> [src |-> Winner(c, "pib"), where |-> Where(c, "pib")],
                tpm |-> [src |-> Winner(c, "tpm"), where |-> Where(c, "tpm")],
                kc |-> Keychain(c),
-               face |-> FaceOf(UriOf(Winner(c, "transport")))]
+               face |-> FaceOf(UriOf(Winner(c, "transport"), c.val))]
 
 \* is an observation of the implementation explained by the reference?  (set of failing clauses)
 Clauses(c, o) ==
@@ -111,12 +126,12 @@ P_OnlyFirstExistingFile(c, r) ==
   \A s \in Settings : LET w == IF s = "transport" THEN r.transport ELSE r[s].src IN
                       w.k = "file" => w.i = FirstExisting(c)
 P_ExistingUsedAsGiven(c, r) ==
-  \A s \in Stores : (r[s].src.k # "def" /\ c.loc[s] \in {"absE", "relCwd"}) => r[s].where = {W("given", 0)}
+  \A s \in Stores : (r[s].src.k # "def" /\ ~ForeignTpm(c, s) /\ c.loc[s] \in {"absE", "relCwd"}) => r[s].where = {W("given", 0)}
 P_RelativeNextToFile(c, r) ==
-  \A s \in Stores : (r[s].src.k # "def" /\ c.loc[s] = "relE" /\ c.exist # {})
+  \A s \in Stores : (r[s].src.k # "def" /\ ~ForeignTpm(c, s) /\ c.loc[s] = "relE" /\ c.exist # {})
                       => r[s].where = {W("nexttofile", FirstExisting(c))}
 P_MissingFallsBackToDefault(c, r) ==
-  \A s \in Stores : ((r[s].src.k = "def" \/ c.loc[s] \in {"none", "absM", "relM", "relOther"} \/ (c.loc[s] = "relE" /\ c.exist = {}))
+  \A s \in Stores : ((r[s].src.k = "def" \/ ForeignTpm(c, s) \/ c.loc[s] \in {"none", "absM", "relM", "relOther"} \/ (c.loc[s] = "relE" /\ c.exist = {}))
                      /\ DefIdx(c, s) # 0) => r[s].where = {W("default", DefIdx(c, s))}
 \* "the first existing configuration file": existence counts, not content - an existing file that is
 \* empty or holds only comments still shadows every later candidate
@@ -125,6 +140,23 @@ P_ContentClassIrrelevant(c, r) ==
   (f # 0 /\ c.body[f] \in {"empty", "blank"}) =>
      \A s \in Settings : LET w == IF s = "transport" THEN r.transport ELSE r[s].src IN
                          w = IF c.env[s] THEN Src("env", 0) ELSE Src("def", 0)
+\* the characters of a value never matter: same sources, same resolution as with plain values
+P_ValueAlphabetIrrelevant(c, r) ==
+  c.val \in {"pct", "punct"} =>
+    LET p == [c EXCEPT !.val = "plain"] IN
+    /\ r.transport = Winner(p, "transport") /\ r.kc = Keychain(p)
+    /\ \A s \in Stores : r[s].src = Winner(p, s) /\ r[s].where = Where(p, s)
+\* a private-key store of another platform is refused, whoever names it; the platform default is never foreign
+P_ForeignTpmRefused(c, r) == (c.val = "foreigntpm" /\ r.tpm.src.k # "def") => r.kc = "err"
+
+\* ------------------------------------------------------------------ platform selection and Linux defaults
+PlatformClass(sysplat) == CASE sysplat = "linux" -> "Linux" [] sysplat = "darwin" -> "Darwin"
+                            [] sysplat = "win32" -> "Win32" [] OTHER -> "err"
+\* documented: unix:///run/nfd/nfd.sock; the pre-2022 path /run/nfd.sock only when it exists and the new one does not
+LinuxDefaultTransport(newSock, oldSock) == IF ~newSock /\ oldSock THEN "unix:///run/nfd.sock" ELSE "unix:///run/nfd/nfd.sock"
+PlatOf(x) == LET cls == PlatformClass(x.sys) IN
+             [cls |-> cls, transport |-> IF cls = "Linux" THEN LinuxDefaultTransport(x.new, x.old) ELSE ""]
+
 P_Face(u, f) == /\ (u.scheme = "unix") => (f.k = "unix" /\ f.addr = u.path)
                 /\ (u.scheme \in {"tcp", "tcp4", "tcp6"}) => (f.k = "tcp" /\ f.addr = u.addr)
                 /\ (u.scheme \in {"udp", "udp4", "udp6"}) => (f.k = "udp" /\ f.addr = u.addr)
